@@ -27,6 +27,9 @@ def run(prop, tier, cfg):
             shutil.copy(os.path.join(VERIF, hrel), hp)
             open(os.path.join(scratch, rel), 'a').write('\n#[cfg(test)]\n#[path = "%s"]\nmod verif_native;\n' % hp)
         env = dict(os.environ, VP_TIER=tier, CARGO_NET_OFFLINE='true', CARGO_TARGET_DIR=os.path.join(VERIF if os.path.isdir(os.path.join(VERIF, 'build')) else '/verif', 'build', 'native_target'))
+        # the library reads proxy settings from the environment: the checks must not depend on the caller's
+        for v in ('http_proxy', 'https_proxy', 'all_proxy', 'no_proxy'):
+            env.pop(v, None); env.pop(v.upper(), None)
         names = [t['name'] for t in cfg['tests'] if not (t.get('tier', 'quick') == 'thorough' and tier != 'thorough')]
         # only the requested tests run (test-name filters after `--`)
         cmd = ['cargo', 'test', '--offline', '--release', '--features', 'charsets,multipart-form,json,form', '--lib', '--'] + names + ['--nocapture', '--test-threads', '8']
